@@ -6,7 +6,7 @@ Open Scope Z_scope.
 
 (* what the output buffer holds: CRYPTO, STREAM and pseudo Version-Negotiation frames with their source packet's time and direction *)
 Inductive okind := OCrypto | OStream | OVersionNeg.
-Record oframe := { of_kind : okind; of_data : bytes; of_ts : Z; of_isserver : bool }.
+Record oframe := { of_kind : okind; of_data : bytes; of_ts : Z * Z; of_isserver : bool }.
 
 Record qdec := { qd_skey : bytes; qd_siv : bytes; qd_ckey : bytes; qd_civ : bytes }.
 
@@ -56,8 +56,10 @@ Definition matches_session_dgram (s : qsession) (p : packet) : bool :=
   || (ip_eqb (p_src p) (qs_client_ip s) && (p_sport p =? qs_client_port s) && ip_eqb (p_dst p) (qs_server_ip s) && (p_dport p =? qs_server_port s)).
 
 Definition packet_isserver (s : qsession) (p : packet) (dcid : bytes) : bool :=
-  if mem_bytes dcid (qs_server_cids s) then false
-  else if mem_bytes dcid (qs_client_cids s) then true
+  if ip_eqb (p_src p) (qs_server_ip s) && (p_sport p =? qs_server_port s) then true
+  else if ip_eqb (p_src p) (qs_client_ip s) && (p_sport p =? qs_client_port s) then false
+  else if (0 <? len dcid) && mem_bytes dcid (qs_server_cids s) then false
+  else if (0 <? len dcid) && mem_bytes dcid (qs_client_cids s) then true
   else negb (ip_eqb (p_src p) (qs_client_ip s) && (p_sport p =? qs_client_port s)).
 
 Definition space_of (t : qptype) : pn_space := match t with QInitial => SpInitial | QHandshake => SpHandshake | _ => SpApp end.
@@ -235,7 +237,7 @@ Definition decrypt_packet (s : qsession) (pk : qpacket) : result qsession :=
       match (if (match qp_type pk with QZeroRtt => true | _ => false end) && qp_isserver pk
              then Exn AttributeError            (* an early decryptor has no server side *)
              else quic_decrypt ci key iv (qp_payload pk) pn aad) with
-      | Exn _ => Ok s2
+      | Exn _ => Ok s1                   (* a packet that does not authenticate leaves the largest packet numbers alone *)
       | Ok payload =>
           match parse_frames ftable payload with
           | Exn _ => Ok s2
@@ -263,7 +265,7 @@ Definition process_qpacket (s : qsession) (pk : qpacket) : result qsession :=
       end).
 
 (* the while loop of QuicSession.handle_packet over the (possibly coalesced) datagram *)
-Fixpoint process_datagram (fuel : nat) (s : qsession) (d : bytes) (ts : Z) (isserver : bool) (dcid : bytes) : result qsession :=
+Fixpoint process_datagram (fuel : nat) (s : qsession) (d : bytes) (ts : Z * Z) (isserver : bool) (dcid : bytes) : result qsession :=
   match d with
   | [] => Ok s
   | _ =>
@@ -286,7 +288,7 @@ Definition quic_handle_packet (s : qsession) (p : packet) (dcid : bytes) (ver : 
             | _ => s end in
   do s1 <- (match qs_initial s0 with None => set_initial_decryptor s0 dcid | Some _ => Ok s0 end);
   let isserver := packet_isserver s1 p dcid in
-  process_datagram (S (length (p_data p))) s1 (p_data p) (p_ts p) isserver dcid.
+  process_datagram (S (length (p_data p))) s1 (p_data p) (p_ts p, p_tsid p) isserver dcid.
 End QS.
 
 (* ---------- QUICOutputbuilder.build ---------- *)
@@ -299,15 +301,15 @@ Definition frame_data (metadata : bool) (f : oframe) : option bytes :=
   end.
 
 (* frames are appended to the current datagram while capture time and direction stay the same; a final flush always happens *)
-Fixpoint group (metadata : bool) (fs : list oframe) (ts : Z) (isserver : bool) (cur : bytes) : list odgram :=
+Fixpoint group (metadata : bool) (fs : list oframe) (ts : Z * Z) (isserver : bool) (cur : bytes) : list odgram :=
   match fs with
-  | [] => [ {| od_ts := ts; od_isserver := isserver; od_payload := cur |} ]
+  | [] => [ {| od_ts := fst ts; od_isserver := isserver; od_payload := cur |} ]
   | f :: r =>
       match frame_data metadata f with
       | None => group metadata r ts isserver cur
       | Some d =>
-          if (of_ts f =? ts) && Bool.eqb (of_isserver f) isserver then group metadata r ts isserver (cur ++ d)
-          else {| od_ts := ts; od_isserver := isserver; od_payload := cur |} :: group metadata r (of_ts f) (of_isserver f) d
+          if (snd (of_ts f) =? snd ts) && Bool.eqb (of_isserver f) isserver then group metadata r ts isserver (cur ++ d)
+          else {| od_ts := fst ts; od_isserver := isserver; od_payload := cur |} :: group metadata r (of_ts f) (of_isserver f) d
       end
   end.
 
